@@ -95,6 +95,26 @@ def run(ctx):
         add("offcurve", c, rb(rnd, 32), s, ks)
     for x in (b"\xff" * 32, b"\x00" * 32, P.P.to_bytes(32, "big"), (P.P - 1).to_bytes(32, "big"), (P.P + 1).to_bytes(32, "big")):
         add("edge-key", b"\xc0" + x, rb(rnd, 32), b"\x51")
+    # internal keys that are not field elements but reduce to the x coordinate of a curve point (p + x, x small): BIP341 rejects them (lift_x
+    # fails for values >= p) although a program can be made that a reducing implementation would accept
+    n_alias = 0
+    xx = 1
+    while n_alias < 8 and xx < 400:
+        pt = P.lift_x(xx)
+        if pt is not None and P.P + xx < (1 << 256):
+            keyb = (P.P + xx).to_bytes(32, "big")
+            for m_ in (0, 1):
+                scr = b"\x51"
+                kk = P.tapleaf(0xc0, scr); nodes = []
+                for _ in range(m_):
+                    e = rb(rnd, 32); nodes.append(e); kk = P.tapbranch(kk, e)
+                t = int.from_bytes(P.tagged("TapTweak", keyb + kk), "big")
+                if t < P.N:
+                    Q = P.padd(pt, P.pmul(t, P.G))
+                    if Q is not None:
+                        add("alias-key", bytes([0xc0 | (Q[1] & 1)]) + keyb + b"".join(nodes), Q[0].to_bytes(32, "big"), scr)
+            n_alias += 1
+        xx += 1
     # control blocks whose length is not 33+32m (the environment is only built for lengths ≥ 33; the size rule itself is checked by the session set-up)
     for extra in (1, 31, 33):
         c, q, s, ks = commitment(rnd, 1)
